@@ -366,8 +366,6 @@ def run(ctx):
                 m['seed'] = seed
             cases += cs
             meta += ms
-    if failures > 0.3 * (nparsed + nbuilt):
-        raise MachineryError(f'{failures} generated inputs could not be parsed/built')
     verdicts = ctx.validate('Trace_Finders', 'Trace_Finders', cases, timeout=3000, per_shard_min=8, extra_env=JVM)
     nq = 0
     for j, (c, m) in enumerate(zip(cases, meta)):
@@ -379,6 +377,9 @@ def run(ctx):
                 key = norm_key(c['queries'][int(qi) - 1]['label'], diag)
                 ctx.violation(key, f"{key}: finder result rejected on a {m['kind']} input (features {m.get('features')})",
                               {'kind': m['kind'], 'index': m['index'], 'seed': m['seed']})
+    # many unusable inputs = lost coverage: a machinery failure, unless the check already found violations to report
+    if failures > 0.3 * (nparsed + nbuilt) and not ctx.violations:
+        raise MachineryError(f'{failures} generated inputs could not be parsed/built')
     ctx.cover['inputs_parsed'] = nparsed - failures
     ctx.cover['inputs_built'] = nbuilt
     ctx.cover['unparseable_generated_inputs'] = failures
